@@ -41,8 +41,8 @@ theorem C15_tie_controller_callsites :
       ["GetStorage().SaveHighestAndHistoricalInstance", "GetStorage().SaveInstance", "GetStorage().SaveHighestInstance"] ∧
     Gen.lits_heights_SaveInstance = ["u&", ">="] ∧
     Gen.calls_heights_UponDecided =
-      ["ValidateDecided", "InstanceForHeight", "addNewInstance", "IsDecided", "LongestUniqueSignersForRoundAndRoot",
-       "FindInstance", "c.SaveInstance"] ∧
+      ["ValidateDecided", "errors.Wrap", "InstanceForHeight", "addNewInstance", "IsDecided",
+       "LongestUniqueSignersForRoundAndRoot", "FindInstance", "c.SaveInstance", "NewDecidedHandler"] ∧
     Gen.calls_heights_StartNewInstance = ["FindInstance", "addAndStoreNewInstance", "forceStopAllInstanceExceptCurrent"] ∧
     Gen.calls_heights_UponExistingInstanceMsg = ["InstanceForHeight"] ∧
     Gen.calls_heights_ProcessMsg = ["BaseMsgValidation", "IsDecidedMsg", "UponDecided", "isFutureMessage", "UponExistingInstanceMsg"] ∧
@@ -57,6 +57,17 @@ theorem C15_tie_container :
     Gen.lits_heights_addNewInstance = ["==", "0", "0", "<", "==", "<", "==", "+", "1", "+", "1"] ∧
     Gen.lits_heights_FindInstance = ["!=", "=="] := by decide
 
+/-- order facts the model relies on:
+    * in `UponDecided` the only error that is RETURNED is the wrapped `ValidateDecided` error (one `errors.Wrap`, before
+      anything else); a `SaveInstance` failure is logged, and the height bump / `NewDecidedHandler` follow the save block;
+    * in `baseConsensusMsgProcessing` the runner's `SaveInstance` comes BEFORE the decided value is decoded and validated -/
+theorem C15_tie_save_order :
+    Gen.calls_heights_UponDecided.filter (· == "errors.Wrap") = ["errors.Wrap"] ∧
+    Gen.calls_heights_UponDecided.head? = some "ValidateDecided" ∧
+    (Gen.calls_heights_UponDecided.dropWhile (· != "c.SaveInstance")) = ["c.SaveInstance", "NewDecidedHandler"] ∧
+    (Gen.calls_heights_baseConsensusMsgProcessing.dropWhile (· != "QBFTController.SaveInstance")) =
+      ["QBFTController.SaveInstance", "decidedValue.Decode", "validateDecidedConsensusData"] := by decide
+
 /-- the store compacts a copy before writing; `Validator.Start` loads the highest instance and sets the runner's
     highest decided slot; `baseStartNewDuty` = guard, new state, executeDuty; `decide` starts the instance and looks it up;
     the runner compacts after ProcessMsg and then saves through the controller's `SaveInstance` -/
@@ -67,7 +78,8 @@ theorem C15_tie_runner_store_callsites :
     Gen.calls_heights_decide = ["StartNewInstance", "InstanceForHeight"] ∧
     Gen.calls_heights_compactInstanceIfNeeded = ["FindInstance", "IsDecidedMsg", "Compact"] ∧
     Gen.calls_heights_baseConsensusMsgProcessing =
-      ["ProcessMsg", "compactInstanceIfNeeded", "didDecideCorrectly", "FindInstance", "QBFTController.SaveInstance"] ∧
+      ["ProcessMsg", "compactInstanceIfNeeded", "didDecideCorrectly", "FindInstance", "QBFTController.SaveInstance",
+       "decidedValue.Decode", "validateDecidedConsensusData"] ∧
     Gen.calls_heights_attester_executeDuty = ["GetAttestationData", "decide"] := by decide
 
 /-! ## clause 1 — no consensus start at or below a height already started or learned decided -/
@@ -235,16 +247,80 @@ theorem C15_top_decided_is_stored_full_refuted : ¬ C15_top_decided_is_stored_fu
   rw [hn] at hb
   cases hb
 
-/-- PARTIAL: it holds whenever the instance is not merely reloaded from storage, i.e. on every light node, and on a full
-    node when the instance is in memory or the historical store has no record of that height -/
-theorem C15_top_decided_is_stored_partial (full : Bool) (q : Nat) (ops : List Op) (h r root : Nat) (sg : List Nat) (via : Bool)
+/-- PARTIAL: it holds — on histories without store-write failures, and for a message whose write does not fail —
+    whenever the instance is not merely reloaded from storage, i.e. on every light node, and on a full node when the
+    instance is in memory or the historical store has no record of that height -/
+theorem C15_top_decided_is_stored_partial (full : Bool) (q : Nat) (ops : List Op) (hnf : NoStoreFail ops)
+    (h r root : Nat) (sg : List Nat) (via : Bool)
     (hq : q ≤ sg.length) (hge : (run (init full q) ops).c.height ≤ h)
     (hnr : (run (init full q) ops).c.full = false ∨ (find (run (init full q) ops).c.insts h).isSome = true ∨
       histGet (run (init full q) ops).s.hist h = none) :
     ∃ b, (step (run (init full q) ops) (.decided h r root sg true via)).1.s.highest = some b ∧ b.inst.height = h :=
-  top_decided_stored (SInvT.reach full q ops) h r root sg via (by rw [run_q]; exact hq) hge hnr
+  top_decided_stored (SInvT.reach full q ops hnf) h r root sg via (by rw [run_q]; exact hq) hge hnr
 
 example : (run (init true 3) [.start 4]).c.height ≤ 6 ∧ histGet (run (init true 3) [.start 4]).s.hist 6 = none := by decide
+
+/-! ## store-write failures and decisions by a commit quorum
+
+The clause-1 theorems above (`_partial_light`, `_partial_attester`, `_partial_not_below`) and the clause-2/3 theorems quantify over
+ALL `Op`s, including `decidedSF` (a decided message delivered while the store fails the write) and `commits` (the running
+instance decides through individual messages while the runner's value check may reject): a failing store does not
+weaken the in-process guarantee, because `UponDecided` only logs the `SaveInstance` error and still adds the instance and
+bumps the height. -/
+
+/-- a decided message for a future height learned during a failing store write is as good as any other, in-process:
+    Height is bumped, the duty in between is refused (non-vacuity of the clause-1 theorems for `decidedSF`) -/
+example : (runSeen (init false 3) [] [.start 5, .decidedSF 10 1 120 [1, 2, 3] true false]).2 = [5, 10] ∧
+    (runSeen (init false 3) [] [.start 5, .decidedSF 10 1 120 [1, 2, 3] true false]).1.c.height = 10 ∧
+    (runSeen (init false 3) [] [.start 5, .decidedSF 10 1 120 [1, 2, 3] true false]).1.s.highest = none ∧
+    consensusStart (runSeen (init false 3) [] [.start 5, .decidedSF 10 1 120 [1, 2, 3] true false]).1 (.start 7) = none ∧
+    consensusStart (runSeen (init false 3) [] [.start 5, .decidedSF 10 1 120 [1, 2, 3] true false]).1 (.start 11) = some 11 := by
+  decide
+
+/-- everything of a decided message except the store write is independent of a store failure: the controller after
+    `decidedSF` is the controller after `decided` (from ANY state) -/
+theorem C15_store_failure_keeps_controller (s : State) (h r root : Nat) (sg : List Nat) (ok via : Bool) :
+    (step s (.decidedSF h r root sg ok via)).1.c = (step s (.decided h r root sg ok via)).1.c ∧
+    (step s (.decidedSF h r root sg ok false)).1.s = s.s := by
+  refine ⟨?_, rfl⟩
+  cases via <;> rfl
+
+/-- a decision of the running instance by a commit quorum is saved BEFORE the runner validates the decided value: the
+    state after `commits` does not depend on the value check (only error / nil of `ProcessConsensus` does) -/
+theorem C15_decided_instance_saved_before_value_check (s : State) (root : Nat) :
+    (step s (.commits root false)).1 = (step s (.commits root true)).1 := by
+  show (commitsStep s root false).1 = (commitsStep s root true).1
+  unfold commitsStep
+  split
+  · split
+    · split <;> rfl
+    · rfl
+  · rfl
+
+/-- … and when that instance is at the controller height (the normal case: nothing higher learned meanwhile) the
+    decided height IS the stored highest afterwards — from ANY state, whatever the value check says — so by
+    `C15_highest_survives_restart` / `C15_stored_highest_never_rerun` it survives restarts and is never run again -/
+theorem C15_commit_quorum_decision_is_stored (s : State) (root : Nat) (vc : Bool) (rh : Nat)
+    (hrun : s.r.running = some rh) (hge : s.c.height ≤ rh) (happ : (step s (.commits root vc)).2 ≠ .na) :
+    ∃ b, (step s (.commits root vc)).1.s.highest = some b ∧ b.inst.height = rh := by
+  have happ' : (commitsStep s root vc).2 ≠ .na := happ
+  show ∃ b, (commitsStep s root vc).1.s.highest = some b ∧ _
+  rcases commitsStep_cases s root vc with ⟨_, hna⟩ | ⟨rh', i, hr', hf, _, _, _, hs⟩
+  · exact absurd hna happ'
+  · rw [hrun] at hr'
+    cases hr'
+    rw [hs]
+    have hih : i.height = rh := find_some_height hf
+    have hfind : find (replaceInst { i with decided := true, commits := singles s.q root } s.c.insts) rh =
+        some { i with decided := true, commits := singles s.q root } :=
+      find_replaceInst_same (i' := { i with decided := true, commits := singles s.q root }) hf hih
+    exact ⟨_, saveFound_writes
+      (c := { s.c with insts := replaceInst { i with decided := true, commits := singles s.q root } s.c.insts }) hfind hge,
+      hih⟩
+
+example : (step (run (init false 3) [.start 12]) (.commits 124 false)).2 = .cerr ∧
+    ((step (run (init false 3) [.start 12]) (.commits 124 false)).1.s.highest.map (·.inst.height)) = some 12 ∧
+    consensusStart (run (init false 3) [.start 12, .commits 124 false, .restart false]) (.start 12) = none := by decide
 
 /-! ## clause 3 — stored decided instances are only replaced upwards -/
 
@@ -318,8 +394,7 @@ theorem C15_highest_replaced_monotone_partial (full : Bool) (q : Nat) (ops : Lis
   · omega
   · refine ⟨⟨i, hf, hc.1, hl⟩, ?_⟩
     intro hr hroot htrim
-    have hmem := hc.2.2 htrim
-    have := longest_ge hmem
+    have := hc.2.2 htrim
     rw [← hr, ← hroot] at this
     omega
 
